@@ -97,7 +97,10 @@ def monStep (which : Nat) (mux : Bool) (s : St) (idx : Nat) (e : Ev) : St × Ver
     | some cl =>
       let v : Verdict :=
         if which = 1 then
-          (if cl.done.isSome then .fail "completed-twice" [V.ofNat idx, V.ofNat c]
+          (if (match o with | .other _ => true | _ => false) then
+             -- C01: "with the server's reply to that call"
+             .fail "foreign-reply" [V.ofNat idx, V.ofNat c]
+           else if cl.done.isSome then .fail "completed-twice" [V.ofNat idx, V.ofNat c]
            else if o = .timeout && decide (t < cl.issueT + cl.T) then .fail "timeout-early" [V.ofNat idx, V.ofNat c]
            else if decide (cl.T > 0) && decide (t > roundUp (cl.issueT + cl.T)) then
              .fail "deadline-bound" [V.ofNat idx, V.ofNat c, .a (if openLate s cl then "open-late" else "open-in-time")]
